@@ -15,6 +15,7 @@ import (
 
 type bloomState struct {
 	added [][]value
+	words int // length of the real bit array (the encoded size must match the real filter's)
 }
 
 var bloomStates = map[*value]*bloomState{}
@@ -62,8 +63,16 @@ func init() {
 	})
 	wrap("(*"+bloomPkg+".Filter).Encode", func(fr *frame, args []value) value {
 		s := bloomOf(args[0].(*value))
+		st := (*args[0].(*value)).(structure)
+		if ba, ok := st[0].([]value); ok && len(ba) > 0 {
+			s.words = len(ba)
+		}
 		bloomTokens = append(bloomTokens, s)
+		// same encoded size as the real filter: 4 (size) + 4 (hash count) + 8 per word
 		tok := strToVals(fmt.Sprintf("BLM%05d", len(bloomTokens)-1))
+		for i := 0; i < 8*s.words; i++ {
+			tok = append(tok, uint8(0))
+		}
 		w := args[1].(iface)
 		m := findMethod(fr.i, w.t, "Write")
 		r := call(fr.i, fr, 0, m, []value{w.v, tok}).(tuple)
@@ -97,11 +106,21 @@ func init() {
 		if err != nil || id >= len(bloomTokens) {
 			panic(rtError("bloom contract model: bad filter token"))
 		}
-		var cell value = structure{[]value(nil), uint32(0), int(0)}
+		src := bloomTokens[id]
+		if src.words > 0 {
+			pad := make([]value, 8*src.words)
+			for i := range pad {
+				pad[i] = uint8(0)
+			}
+			r := call(fr.i, fr, 0, readFull, []value{args[0], pad}).(tuple)
+			if e := r[1].(iface); e.t != nil {
+				panic(targetPanic{v: e})
+			}
+		}
+		var cell value = structure{[]value(nil), uint32(64 * src.words), int(0)}
 		p := &cell
 		// the decoded filter knows the same keys (copy: later Adds on one do not affect the other)
-		src := bloomTokens[id]
-		bloomStates[p] = &bloomState{added: append([][]value(nil), src.added...)}
+		bloomStates[p] = &bloomState{added: append([][]value(nil), src.added...), words: src.words}
 		return p
 	})
 }
